@@ -1289,10 +1289,9 @@ def finding_key(case, res):
     if _CRASH in fail:
         # (the crash classes crash:ctfTR-derived-event-rejected / crash:ctfTR-final-check of Algorithm 3 are FIXED, repo
         # f335599: an exception of ctfTR after validation is attributed to no class any more - Lean ctfTR_no_internal_error)
-        if (fail.startswith("TypeError (") and "at _any_variables_with_inconsistent_values:" in fail
-              and sig["simplify_risk"]):
-            cls = "crash:simplify-typeerror"
-        elif (fail.startswith("ValueError (") and sig["domain_drops_bi"]
+        # (crash:simplify-typeerror is FIXED, repo c8cad49 + 333fa44: a TypeError of SIMPLIFY after validation is attributed
+        # to no class any more - Lean simplify_no_error / ctfTRu_no_internal_error)
+        if (fail.startswith("ValueError (") and sig["domain_drops_bi"]
               and ("at transport_district_intervening_on_parents:" in fail
                    or ("at identify_district_variables:" in fail and "is not in list" in fail))):
             # the district of the target is not bidirected-connected in the domain graph (whole graph: Algorithm 4's own
